@@ -23,6 +23,7 @@ RULE = (
 ASSUMPTIONS = [
     "animals >= 90 px apart, drift <= 2 px/frame, body size ~14 px (IoU/OKS/negative distance all prefer the own track)",
     "fast scenario (distance-scoring configurations only): animals 100 px apart, all moving 30 px per frame in parallel, single-frame absences, at most one absent frame per animal among the last window+2 frames - so the cumulative displacement exceeds the separation within the frame bound while each step stays far below it (stale-history bugs need this to show within a short history)",
+    "stride scenario (OKS configurations only): animals 100 px apart moving 12 px per frame in parallel with the fast scenario's absence rule; the own-track OKS is then ~1e-75 (~1e-300 after an absent frame) - positive in double precision, exactly 0 for every other animal",
     "diag scenario (IoU configurations only): bounding boxes of 12x14 px separated along both axes by 17 px (diagonal neighbours, centres 42 px apart), common drift of (1, 0.5) px/frame",
     "absence counted in frames (empty frames included), which is never more lenient than the tracker's own queue-entry count",
     "bounds: quick K=3,F=3 and K=2,F=5, windows {2,3}; thorough K=3,F=5 and K=2,F=7, windows {1,2,3}, reductions {mean,max}",
@@ -56,7 +57,7 @@ def admissible(ev, seen_last, frame, window, fast=False, hist=()):
 
 def explore(part, cfg, k, depth, fast=False):
     T.MODE["fast"] = fast if fast == "diag" else bool(fast)
-    drift = "diag" if fast == "diag" else ("fast" if fast else True)
+    drift = fast if fast in ("diag", "stride") else ("fast" if fast else True)
     events = T.frame_events(k)
     window = cfg["window_size"]
     cfgkey = core.digest(cfg)
@@ -72,7 +73,7 @@ def explore(part, cfg, k, depth, fast=False):
         nxt = {}
         for hist, trk, ident, last in frontier:
             for ev in events:
-                if not admissible(ev, last, d, window, fast is True, hist):
+                if not admissible(ev, last, d, window, fast is True or fast == "stride", hist):
                     part.add("pruned_inadmissible")
                     continue
                 t2 = T.clone(trk)
@@ -80,7 +81,7 @@ def explore(part, cfg, k, depth, fast=False):
                 part.count()
                 part.transition()
                 h2 = hist + [ev]
-                case = {"cfg": cfg, "history": h2, "k": k, "fast": fast if fast == "diag" else bool(fast)}
+                case = {"cfg": cfg, "history": h2, "k": k, "fast": fast if fast in ("diag", "stride") else bool(fast)}
                 carried = any(a in ident for a, _ in ev)
                 if carried:
                     part.nontriv(f"{cfgkey}:{h2}")
@@ -145,6 +146,7 @@ def run(ctx):
         jobs += [(c, 2, 6, True) for c in cfgs if c["scoring_method"] == "euclidean_dist"]
         # options otherwise only varied in the thorough tier, at a small depth: reduction 'max', window 1
         jobs += [(c, 2, 4) for c in T.all_configs(windows=[1, 2], thresholds=[0.0], reductions=("max",))]
+        jobs += [(c, 2, 5, "stride") for c in cfgs if c["scoring_method"] == "oks"] + [(c, 3, 3, "stride") for c in cfgs if c["scoring_method"] == "oks"]
         jobs += [(c, 3, 3, "diag") for c in cfgs if c["scoring_method"] == "iou"] + [(c, 2, 5, "diag") for c in cfgs if c["scoring_method"] == "iou"]
         ctx.bounds = {"K3_frames": 3, "K2_frames": 5, "K2_frames_fast_scenario": 6, "diag_scenario": "K3x3, K2x5 frames (IoU configs)", "configs": len(cfgs)}
     else:
@@ -152,6 +154,7 @@ def run(ctx):
         jobs = [(c, 3, 5) for c in cfgs] + [(c, 2, 7) for c in cfgs]
         jobs += [(c, 2, 8, True) for c in cfgs if c["scoring_method"] == "euclidean_dist"]
         jobs += [(c, 3, 5, True) for c in cfgs if c["scoring_method"] == "euclidean_dist"]
+        jobs += [(c, 2, 7, "stride") for c in cfgs if c["scoring_method"] == "oks"] + [(c, 3, 5, "stride") for c in cfgs if c["scoring_method"] == "oks"]
         jobs += [(c, 3, 5, "diag") for c in cfgs if c["scoring_method"] == "iou"] + [(c, 2, 7, "diag") for c in cfgs if c["scoring_method"] == "iou"]
         ctx.bounds = {"K3_frames": 5, "K2_frames": 7, "K2_frames_fast_scenario": 8, "K3_frames_fast_scenario": 5, "diag_scenario": "K3x5, K2x7 frames (IoU configs)", "configs": len(cfgs)}
     jobs = core.rotate(jobs, ctx.seed)
@@ -162,9 +165,9 @@ def replay(case):
     if case.get("harness"):
         return {"violates": True, "note": "harness self-check failure", "case": case}
     cfg = case["cfg"]
-    fast = case.get("fast") if case.get("fast") == "diag" else bool(case.get("fast"))
+    fast = case.get("fast") if case.get("fast") in ("diag", "stride") else bool(case.get("fast"))
     T.MODE["fast"] = fast
-    drift = "diag" if fast == "diag" else ("fast" if fast else True)
+    drift = fast if fast in ("diag", "stride") else ("fast" if fast else True)
     trk = T.new_tracker(cfg)
     ident, log = {}, []
     for i, ev in enumerate(case["history"]):
